@@ -43,6 +43,8 @@ type crcCase struct {
 	// Cuts inside the corrupted stream (positions); delivered as successive reads
 	Cuts []int `json:"cuts"`
 	EOF  int   `json:"eof"`
+	// Prior: an earlier call on the same client (its reply is valid): success | eof | ioerr | partial-stall
+	Prior string `json:"prior,omitempty"`
 }
 
 func validReply(c crcCase) ([]byte, error) {
@@ -117,12 +119,18 @@ func runCRC(c crcCase) harness.Result {
 	if c.EOF == 2 {
 		ev = append(ev, xport.Event{Kind: "eof", N: 0})
 	}
-	sc := cli.Scenario{Kind: c.Kind, Req: c.Req, Stream: stream, Events: ev, ReadTimeoutMs: 25}
+	sc := cli.Scenario{Kind: c.Kind, Req: c.Req, Stream: stream, Events: ev, ReadTimeoutMs: 25, Prior: c.Prior}
 	return judge(c, stream, reply, cli.Run(sc))
 }
 
 func judge(c crcCase, stream, reply []byte, o cli.Outcome) harness.Result {
 	labels := []string{"kind:" + c.Kind, "corr:" + c.Corr.Kind, fmt.Sprintf("fc%d", c.Req.FC)}
+	if c.Prior != "" {
+		labels = append(labels, "after-earlier-call:"+c.Prior)
+	}
+	if o.PriorHung {
+		return harness.Fail("an earlier call (%s) on the same client did not return", c.Prior)
+	}
 	if c.ExcCode != 0 {
 		labels = append(labels, "exception-reply")
 	}
@@ -232,6 +240,9 @@ func genCRC(t *rapid.T, kinds []string) crcCase {
 	}
 	if !cli.IsSerial(c.Kind) {
 		c.EOF = rapid.SampledFrom([]int{0, 0, 1, 2}).Draw(t, "eof")
+	}
+	if rapid.IntRange(0, 3).Draw(t, "with_prior") == 0 {
+		c.Prior = rapid.SampledFrom([]string{"success", "success", "ioerr", "partial-stall"}).Draw(t, "prior")
 	}
 	return c
 }
